@@ -324,6 +324,35 @@ def run(ctx, driver):
                 rec.fail("undocumented-exception", {"proto": "h2-concurrent", "class": cls},
                          {"runtime": rt, "cfg": cfg, "seed": seed, "caller": c.idx, "exception": getattr(c, "exc", None),
                           "trace": [list(map(str, t)) for t in ex.trace][-40:], "how_to_replay": "h2x.run_one(runtime, cfg, seed)"})
+            # a stream the *server* reset (and nothing else went wrong in the run) is the remote end's doing
+            where = ex.request_peers(c)
+            if c.outcome == "error:LocalProtocolError" and len(where) == 1 and c.idx not in ex.faulted_callers and \
+                    not any(t[0] in ("goaway", "eof", "cancel", "fault") for t in ex.trace):
+                st = ex.peers[where[0][0]].streams[where[0][1]]
+                if st.stage == 3:
+                    rec.fail("class-does-not-match-cause", {"proto": "h2-concurrent", "cause": "stream-reset-by-server", "got": "LocalProtocolError"},
+                             {"runtime": rt, "cfg": cfg, "seed": seed, "caller": c.idx, "exception": getattr(c, "exc", None),
+                              "trace": [list(map(str, t)) for t in ex.trace][-40:], "how_to_replay": "h2x.run_one(runtime, cfg, seed)"})
+    # resets while uploading, nothing else
+    stored = h2x.corpus(ctx, ID)
+    for i in range(-len(stored), 40 if ctx.quick else 800):
+        if i < 0:
+            rt, cfg, seed = stored[i]
+        else:
+            cfg = {"max_connections": 1, "callers": rng.randint(1, 3), "p_rst": 0.5, "early_response": False, "segment": "coarse",
+                   "init_max_streams": 10, "ups": [300, 70000, 200000], "auto_credit": rng.random() < 0.5, "max_steps": 120}
+            seed = rng.randrange(1 << 30)
+            rt = ("asyncio", "trio")[i % 2]
+        ex = h2x.run_one(rt, cfg, seed)
+        rec.evals += 1
+        rec.distinct.add(("h2x-rst", rt, tuple(map(str, ex.trace))))
+        for c in ex.callers:
+            rec.dist[f"h2-reset:{c.outcome}"] += 1
+            where = ex.request_peers(c)
+            if c.outcome in ("error:LocalProtocolError", "error:Other") and len(where) == 1 and ex.peers[where[0][0]].streams[where[0][1]].stage == 3:
+                rec.fail("class-does-not-match-cause", {"proto": "h2-concurrent", "cause": "stream-reset-by-server", "got": c.outcome.split(":")[1]},
+                         {"runtime": rt, "cfg": cfg, "seed": seed, "caller": c.idx, "exception": getattr(c, "exc", None),
+                          "trace": [list(map(str, t)) for t in ex.trace][-40:], "how_to_replay": "h2x.run_one(runtime, cfg, seed)"})
     # the same, directed: three requests start together; the k-th network operation fails
     for k in range(14):
         for timeout in (False, True):
